@@ -407,6 +407,8 @@ def proj(x, vidx, i, name=None):
         return GARBAGE
     if x.op == "ite":
         return ite(x.a[0], proj(x.a[1], vidx, i, name), proj(x.a[2], vidx, i, name))
+    if x.op == "loop_pick" and len(x.a) == 2 and isinstance(x.a[1], T) and x.a[1].op == "adt" and x.a[1].a[1] != vidx:
+        return GARBAGE          # the value an iteration left the loop with is of another variant
     if x.op == "upd" and x.a[1] == vidx:
         if x.a[2] == i:
             return x.a[4]
